@@ -14,7 +14,8 @@ from ._pipes import PipeScenario, JoinScenario, flat, needs_clock, parse
 
 MOD = __name__
 
-PASS_THROUGH = ("map", "filter", "flatten", "flatten2", "pluck", "accumulate", "accumulate_nostart", "unique", "slice", "sliding_window")
+PASS_THROUGH = ("map", "filter", "flatten", "flatten2", "pluck", "accumulate", "accumulate_nostart", "unique", "slice", "sliding_window",
+                "starmap", "union", "partition_unique")
 BUFFERING = ("buffer", "delay", "latest", "collect", "timed_window", "timed_window_unique", "map_async", "map_async_eager", "rate_limit")
 
 
@@ -34,6 +35,14 @@ def _own_outputs(scen, x):
         elif on and e[0] == "in" and x in flat(e[3]):
             out.append(e[3])
     return out
+
+
+def _passes(spec):
+    """the node hands every element it receives to its consumer within the same emit"""
+    name, a = parse(spec)
+    if name == "partition_unique":
+        return a[0] == 1
+    return name in PASS_THROUGH
 
 
 class Chain(PipeScenario):
@@ -74,7 +83,7 @@ class Chain(PipeScenario):
         if any(b not in fin for b in handling):
             self.violations.append(Violation("emit-before-consumer", self.site(), "consumer-still-handling",
                                              dict(element=x, delivered=self.delivered(), finished=self.finished())))
-        elif all(nm in PASS_THROUGH for nm in names) and not handling:
+        elif all(_passes(sp) for sp in self.params["nodes"]) and not handling:
             self.violations.append(Violation("emit-before-consumer", self.site(), "not-yet-delivered",
                                              dict(element=x, delivered=self.delivered())))
 
@@ -120,7 +129,7 @@ class Chain(PipeScenario):
             if pend:
                 return Violation("emit-pending", site, "", dict(pending=pend, delivered=self.delivered()))
             names = [parse(s)[0] for s in self.params["nodes"]]
-            if not any(nm in ("sliding_window", "latest", "collect", "partition", "timed_window_unique") for nm in names):
+            if not any(nm in ("sliding_window", "latest", "collect", "partition", "timed_window_unique", "partition_unique") for nm in names):
                 got = sorted(x for x in flat(self.delivered()) if not isinstance(x, str))
                 if "flatten2" in names:
                     got = sorted(set(got)) if got == sorted(list(set(got)) * 2) else got
@@ -293,7 +302,8 @@ def factory(key):
 
 
 PLAIN = ["", "map", "filter", "flatten", "flatten2", "pluck", "accumulate", "accumulate_nostart", "unique", "slice",
-         "sliding_window:1", "sliding_window:2", "partition:2"]
+         "sliding_window:1", "sliding_window:2", "partition:2", "starmap", "union", "partition_unique:1:ident:first",
+         "partition_unique:2:ident:last"]
 
 
 def plan(ctx):
@@ -405,7 +415,7 @@ class Threaded(ThreadedMixin, PipeScenario):
         if any(b not in fin for b in handling):
             self.violations.append(Violation("emit-before-consumer", self.site(), "consumer-still-handling",
                                              dict(element=x, delivered=self.delivered(), finished=self.finished())))
-        elif all(nm in PASS_THROUGH for nm in names) and not handling:
+        elif all(_passes(sp) for sp in self.params["nodes"]) and not handling:
             self.violations.append(Violation("emit-before-consumer", self.site(), "not-yet-delivered",
                                              dict(element=x, delivered=self.delivered())))
 
